@@ -426,7 +426,7 @@ MUTANTS = [
     dict(kind="break", name="valid-cpd-loose-tolerance", file=DF, expect="C05.validate",
          old="            atol=0.01,\n        )", new="            atol=0.1,\n        )"),
     dict(kind="break", name="valid-cpd-sums-over-last", file=DF, expect="C05.validate",
-         old=".marginalize(self.scope()[:1], inplace=False)", new=".marginalize(self.scope()[-1:], inplace=False)"),
+         old="                self, self.scope()[:1], inplace=False", new="                self, self.scope()[-1:], inplace=False"),
     dict(kind="twin", name="ctor-ravel", file=CPD,
          old="variables, cardinality, values.flatten(), state_names=state_names", new="variables, cardinality, values.ravel(), state_names=state_names"),
     dict(kind="twin", name="get-values-reshape-minus-one", file=CPD,
